@@ -11,7 +11,7 @@ EXTENDS Layout
 
 CONSTANTS MaxNodes,      \* nodes per tree
           CompTypes,     \* composite class names used for children
-          Grids,         \* grid choices for composites: subset of {"none","g1","g2","g1b","ax"}
+          Grids,         \* grid choices for composites: subset of {"none","g1","g2","g1b","ax","g0"}
           NCells,        \* grid cells offered to index locators (1..3)
           MaxLevel
 
@@ -22,6 +22,7 @@ G(name) == CASE name = "g1"  -> [raw |-> "Cart#1",  obs |-> "Cart#1", ax |-> FAL
              [] name = "g2"  -> [raw |-> "Cart#2",  obs |-> "Cart#2", ax |-> FALSE]
              [] name = "g1b" -> [raw |-> "Cart#1b", obs |-> "Cart#1", ax |-> FALSE]    \* other spelling of the same grid (I5)
              [] name = "ax"  -> [raw |-> "Axial#1", obs |-> "Axial#1", ax |-> TRUE]
+             [] name = "g0"  -> [raw |-> "Hex#0", obs |-> "Hex#0", ax |-> FALSE]      \* makes its locations on demand, holds none yet
              [] OTHER        -> NoGrid
 
 Base(id, ty, cmp) == [ty |-> ty, nm |-> "n" \o ToString(id), sn |-> 10 + id, kids |-> <<>>, lk |-> "N", loc |-> <<>>, lg |-> 0,
